@@ -309,6 +309,26 @@ class StdSem(Semantics):
             ft = path.tags.get((body.id, fpl['l'])) if fpl is not None and not fpl.get('p') else None
             if ft and ft.startswith('fn:'):
                 name = ft[3:]
+        if strip_generics(name or '') in ('core::ops::function::FnOnce::call_once', 'core::ops::function::FnMut::call_mut', 'core::ops::function::Fn::call') \
+                and len(term['args']) == 2:
+            # `f(&mime)` where `f: impl FnOnce(&Mime) -> bool` is a function of the crate handed over by the caller (`check(headers, is_json)`):
+            # the call is a call of that function, with the elements of the argument tuple as its arguments
+            f0 = op_place(term['args'][0])
+            ft = path.tags.get((body.id, f0['l'])) if f0 is not None and all(e == '*' for e in f0.get('p', [])) else None
+            if ft is None and 'fn' in term['args'][0]:
+                ft = 'fn:' + strip_generics(term['args'][0]['fn'])
+            tl = op_place(term['args'][1])
+            if ft and ft.startswith('fn:') and tl is not None and not tl.get('p'):
+                elems = None
+                for blk in body.blocks:
+                    for st in blk['st']:
+                        if st.get('lhs') == {'l': tl['l']} and st['rv']['k'] == 'agg' and st['rv'].get('ak') == 'tuple':
+                            elems = st['rv']['ops']
+                if elems is not None:
+                    term = dict(term)
+                    term['args'] = list(elems)
+                    term['aty'] = [None] * len(elems)
+                    name = ft[3:]
         short = strip_generics(name)
         d = term.get('dest')
         dk = (body.id, d['l']) if d is not None and not d.get('p') else None
